@@ -25,6 +25,10 @@ pub enum Sweep {
     All(usize),
     /// only variant number i of the enumeration for instruction j
     Only(usize, usize),
+    /// light sweep: for EVERY instruction one surplus word behind its operands and its last word missing
+    Light,
+    /// only variant number i of the light sweep
+    LightOnly(usize),
 }
 
 #[derive(Clone, Debug, Serialize, Deserialize)]
@@ -284,6 +288,26 @@ pub fn sweep_variants(stream: &Stream, base_faults: &[Fault], j: usize) -> Vec<V
     out
 }
 
+/// one surplus word behind the operands of each instruction (0 / all ones, alternating) and each instruction's last
+/// word missing: the property's single-fault quantifier applied to every instruction of a small stream
+pub fn light_variants(stream: &Stream, base_faults: &[Fault]) -> Vec<Vec<Fault>> {
+    let mut out: Vec<Vec<Fault>> = vec![];
+    let mut front = |f: Fault| {
+        let mut v = vec![f];
+        v.extend_from_slice(base_faults);
+        v.sort_by_key(|f| f.code() > 10);
+        out.push(v);
+    };
+    for (j, inst) in stream.insts.iter().enumerate() {
+        let ilen = inst_words(inst);
+        front(Fault::OperandExtra(j, ilen, if j % 2 == 0 { 0 } else { 0xFFFF_FFFF }));
+        if ilen > 1 {
+            front(Fault::OperandDrop(j, ilen - 1));
+        }
+    }
+    out
+}
+
 impl Property for C03 {
     type Trace = Trace;
     const ID: &'static str = "C03";
@@ -313,6 +337,8 @@ impl Property for C03 {
         let small = stream.insts.len() < 64 && stream.insts.iter().all(|i| i.ops.len() < 64 && i.ops.iter().all(|o| !matches!(o, MOp::S(st) if st.len() > 256)));
         let sweep = if small && rng.chance(1, 25) && !stream.insts.is_empty() {
             Sweep::All(rng.usize_below(stream.insts.len()))
+        } else if small && rng.chance(1, 5) && !stream.insts.is_empty() {
+            Sweep::Light
         } else {
             Sweep::None
         };
@@ -344,6 +370,8 @@ impl Property for C03 {
                 Sweep::None => vec![],
                 Sweep::All(j) => sweep_variants(&t.stream, &t.faults, *j).into_iter().enumerate().collect(),
                 Sweep::Only(j, i) => sweep_variants(&t.stream, &t.faults, *j).into_iter().enumerate().filter(|(k, _)| k == i).collect(),
+                Sweep::Light => light_variants(&t.stream, &t.faults).into_iter().enumerate().collect(),
+                Sweep::LightOnly(i) => light_variants(&t.stream, &t.faults).into_iter().enumerate().filter(|(k, _)| k == i).collect(),
             };
             for (i, fl) in variants {
                 let (b, fired) = faults::apply(&t.stream, &fl);
@@ -400,6 +428,25 @@ pub fn shrink_stream_trace(t: &Trace) -> Vec<Trace> {
         for i in 0..n {
             let mut c = t.clone();
             c.sweep = Sweep::Only(j, i);
+            out.push(c);
+        }
+        return out;
+    }
+    if t.sweep == Sweep::Light {
+        let n = light_variants(&t.stream, &t.faults).len();
+        for i in 0..n {
+            let mut c = t.clone();
+            c.sweep = Sweep::LightOnly(i);
+            out.push(c);
+        }
+        return out;
+    }
+    if let Sweep::LightOnly(i) = t.sweep {
+        let vs = light_variants(&t.stream, &t.faults);
+        if let Some(fl) = vs.get(i) {
+            let mut c = t.clone();
+            c.sweep = Sweep::None;
+            c.faults = fl.clone();
             out.push(c);
         }
         return out;
